@@ -96,6 +96,17 @@ var (
 	tScan  = &ty{k: "scanner"} // *bufio.Scanner -> GoIO.Scanner
 	tFile  = &ty{k: "file"}    // *os.File -> GoIO.File
 	tUnit  = &ty{k: "unit"}    // no result
+	tMap1  = &ty{k: "map1"}    // map[string]int -> GoIO.Map1
+	tMap2  = &ty{k: "map2"}    // map[string]map[string]int -> GoIO.Map2
+	tReg   = &ty{k: "registry"}
+	tSReg  = &ty{k: "sregistry"}
+	tT     = &ty{k: "T"}        // testingT -> GoIO.T
+	tOptB  = &ty{k: "optbool"}  // *bool -> Option Bool
+	tMatch = &ty{k: "matcher"}  // match.JSONMatcher / match.YAMLMatcher values (opaque)
+	tMatchs = &ty{k: "matchers"}
+	tMErr  = &ty{k: "merr"}     // match.MatcherError
+	tMErrs = &ty{k: "merrs"}
+	tSt    = &ty{k: "st"}
 	tBad   = &ty{k: "?"}
 )
 
@@ -128,6 +139,28 @@ func (t *ty) lean() string {
 		return "Unit"
 	case "fs":
 		return "GoSnaps.FS"
+	case "map1":
+		return "GoSnaps.GoIO.Map1"
+	case "map2":
+		return "GoSnaps.GoIO.Map2"
+	case "T":
+		return "GoSnaps.GoIO.T"
+	case "optbool":
+		return "Option Bool"
+	case "matcher":
+		return "GoSnaps.GoIO.Matcher"
+	case "matchers":
+		return "List GoSnaps.GoIO.Matcher"
+	case "merr":
+		return "GoSnaps.GoIO.MErr"
+	case "merrs":
+		return "List GoSnaps.GoIO.MErr"
+	case "st":
+		return "GoSnaps.GoIO.St"
+	case "registry":
+		return "GoSnaps.GoIO.Registry"
+	case "sregistry":
+		return "GoSnaps.GoIO.SRegistry"
 	case "pair":
 		return "(" + t.a.lean() + " × " + t.b.lean() + ")"
 	case "func":
@@ -165,6 +198,7 @@ type funcSpec struct {
 	extra   []param          // leading parameters of the Lean definition
 	externs map[string]param // printed Go expression (variable, selector, or call with its exact arguments) -> parameter
 	extFns  map[string]param // callee -> function parameter
+	recv    string           // methods: "<receiver name>:<kind>" (kind registry | sregistry); the receiver is in-out
 	out     string           // generated file: "" = Funcs.lean, "IO" = FuncsIO.lean
 	fx      string           // "" pure; "ro" reads the file system (parameters io, fs); "rw" also returns the new fs
 	inout   []string         // pointer parameters whose final value is returned (after fs, before the results)
@@ -198,6 +232,37 @@ var funcSpecs = []funcSpec{
 	{pkg: "snaps", name: "updateSnapshot", sig: "testID:string,snapshot:string,snapPath:string->error", out: "IO", fx: "rw"},
 	{pkg: "snaps", name: "upsertStandaloneSnapshot", sig: "snapshot:string,snapPath:string->error", out: "IO", fx: "rw"},
 	{pkg: "snaps", name: "getPrevStandaloneSnapshot", sig: "snapPath:string->string,error", out: "IO", fx: "ro"},
+	{pkg: "snaps", name: "syncRegistry.getTestID", sig: "snapPath:string,testName:string->string", out: "IO", recv: "s:registry"},
+	{pkg: "snaps", name: "syncRegistry.reset", sig: "snapPath:string,testName:string->", out: "IO", recv: "s:registry"},
+	{pkg: "snaps", name: "syncStandaloneRegistry.getTestID", sig: "snapPath:string,snapPathRel:string->string,string", out: "IO", recv: "s:sregistry"},
+	{pkg: "snaps", name: "syncStandaloneRegistry.reset", sig: "snapPath:string->", out: "IO", recv: "s:sregistry"},
+	// the Match* flows
+	{pkg: "snaps", name: "handleError", sig: "t:testingT,err:any->", out: "IO", fx: "st"},
+	{pkg: "snaps", name: "takeSnapshot", sig: "objects:[]any->string", out: "IO"},
+	{pkg: "snaps", name: "matchSnapshot", sig: "c:*Config,t:testingT,values:...any->", out: "IO", fx: "st",
+		extra:   []param{{"trimpath", tBool}, {"caller", tText}},
+		externs: map[string]param{}},
+	{pkg: "snaps", name: "matchStandaloneSnapshot", sig: "c:*Config,t:testingT,input:any->", out: "IO", fx: "st",
+		extra: []param{{"trimpath", tBool}, {"caller", tText}}},
+	{pkg: "snaps", name: "applyJSONMatchers", sig: "b:[]byte,matchers:...match.JSONMatcher->[]byte,[]match.MatcherError", out: "IO",
+		extra:  []param{{"runMatcher", fnOf(pairOf(tText, tMErrs), tMatch, tText)}},
+		extFns: map[string]param{"m.JSON": {"runMatcher", fnOf(pairOf(tText, tMErrs), tMatch, tText)}}},
+	{pkg: "snaps", name: "applyYAMLMatchers", sig: "b:[]byte,matchers:...match.YAMLMatcher->[]byte,[]match.MatcherError", out: "IO",
+		extra:  []param{{"runMatcher", fnOf(pairOf(tText, tMErrs), tMatch, tText)}},
+		extFns: map[string]param{"m.YAML": {"runMatcher", fnOf(pairOf(tText, tMErrs), tMatch, tText)}}},
+	{pkg: "snaps", name: "takeYAMLSnapshot", sig: "b:[]byte->string", out: "IO"},
+	{pkg: "snaps", name: "matchJSON", sig: "c:*Config,t:testingT,input:any,matchers:...match.JSONMatcher->", out: "IO", fx: "st",
+		extra: []param{{"trimpath", tBool}, {"caller", tText}, {"runMatcher", fnOf(pairOf(tText, tMErrs), tMatch, tText)},
+			{"validate", fnOf(pairOf(tText, tErr), tText)}, {"takeJSON", fnOf(tText, tCfg, tText)}},
+		extFns: map[string]param{"validateJSON": {"validate", fnOf(pairOf(tText, tErr), tText)}, "takeJSONSnapshot": {"takeJSON", fnOf(tText, tCfg, tText)}}},
+	{pkg: "snaps", name: "matchYAML", sig: "c:*Config,t:testingT,input:any,matchers:...match.YAMLMatcher->", out: "IO", fx: "st",
+		extra: []param{{"trimpath", tBool}, {"caller", tText}, {"runMatcher", fnOf(pairOf(tText, tMErrs), tMatch, tText)},
+			{"validate", fnOf(pairOf(tText, tErr), tText)}},
+		extFns: map[string]param{"validateYAML": {"validate", fnOf(pairOf(tText, tErr), tText)}}},
+	{pkg: "snaps", name: "matchStandaloneJSON", sig: "c:*Config,t:testingT,input:any,matchers:...match.JSONMatcher->", out: "IO", fx: "st",
+		extra: []param{{"trimpath", tBool}, {"caller", tText}, {"runMatcher", fnOf(pairOf(tText, tMErrs), tMatch, tText)},
+			{"validate", fnOf(pairOf(tText, tErr), tText)}, {"takeJSON", fnOf(tText, tCfg, tText)}},
+		extFns: map[string]param{"validateJSON": {"validate", fnOf(pairOf(tText, tErr), tText)}, "takeJSONSnapshot": {"takeJSON", fnOf(tText, tCfg, tText)}}},
 }
 
 // ---------------------------------------------------------------------------------------------
@@ -234,7 +299,8 @@ type doneFn struct {
 	spec    *funcSpec
 	params  []*ty
 	pnames  []string
-	res     *ty   // the Lean result type (state prefix and Go results)
+	anyP    map[int]bool // parameters declared `any` in Go
+	res     *ty          // the Lean result type (state prefix and Go results)
 	rets    []*ty // the Go results
 	partial bool
 	text    string
@@ -362,6 +428,30 @@ func goType(e ast.Expr) *ty {
 			return tByte
 		case "error":
 			return tErr
+		case "any":
+			// a value of type any is represented by the text it is rendered to (kr/pretty's Sprint for
+			// snapshot values; the string itself or err.Error() for handleError's argument)
+			return tText
+		case "testingT":
+			return tT
+		}
+	case *ast.InterfaceType:
+		if e.Methods == nil || len(e.Methods.List) == 0 {
+			return tText
+		}
+	case *ast.Ellipsis:
+		switch selName(e.Elt) {
+		case "any":
+			return tTexts
+		case "match.JSONMatcher", "match.YAMLMatcher":
+			return tMatchs
+		}
+	case *ast.SelectorExpr:
+		switch selName(e) {
+		case "match.JSONMatcher", "match.YAMLMatcher":
+			return tMatch
+		case "match.MatcherError":
+			return tMErr
 		}
 	case *ast.ArrayType:
 		if e.Len == nil {
@@ -369,9 +459,12 @@ func goType(e ast.Expr) *ty {
 				switch id.Name {
 				case "byte":
 					return tText
-				case "string":
+				case "string", "any":
 					return tTexts
 				}
+			}
+			if selName(e.Elt) == "match.MatcherError" {
+				return tMErrs
 			}
 		}
 	case *ast.StarExpr:
@@ -445,10 +538,31 @@ func (t *ftr) exprH(e ast.Expr, hint *ty) ex {
 			return ex{p.name, p.t, false}
 		}
 		if id, ok := e.X.(*ast.Ident); ok {
+			if ty := t.lookup(id.Name); ty != nil && (ty.k == "registry" || ty.k == "sregistry") {
+				if e.Sel.Name == "running" || e.Sel.Name == "cleanup" {
+					ft := tMap2
+					if ty.k == "sregistry" {
+						ft = tMap1
+					}
+					return ex{t.ln(id.Name) + "." + e.Sel.Name, ft, false}
+				}
+			}
+			if ty := t.lookup(id.Name); ty != nil && ty.k == "merr" {
+				switch e.Sel.Name {
+				case "Matcher":
+					return ex{t.ln(id.Name) + ".matcher", tText, false}
+				case "Path":
+					return ex{t.ln(id.Name) + ".path", tText, false}
+				case "Reason":
+					return ex{t.ln(id.Name) + ".reason", tErr, false}
+				}
+			}
 			if ty := t.lookup(id.Name); ty != nil && ty.k == "cfg" {
 				switch e.Sel.Name {
 				case "filename", "extension", "snapsDir":
 					return ex{t.ln(id.Name) + "." + e.Sel.Name, tText, false}
+				case "update":
+					return ex{t.ln(id.Name) + ".update", tOptB, false}
 				}
 			}
 		}
@@ -533,6 +647,19 @@ func (t *ftr) exprH(e ast.Expr, hint *ty) ex {
 			return t.fail("strings.Split(...)[i] is supported only for index 0 and a non-empty literal separator")
 		}
 		x := t.expr(e.X)
+		if t.err == nil && (x.t.k == "map1" || x.t.k == "map2") {
+			k := t.expr(e.Index)
+			if t.err != nil {
+				return ex{"sorry", tBad, false}
+			}
+			if k.t.k != "text" {
+				return t.fail("map key of type %s", k.t.lean())
+			}
+			if x.t.k == "map2" {
+				return ex{"(GoSnaps.GoIO.map2Inner " + x.s + " " + k.s + ")", tMap1, x.p || k.p}
+			}
+			return ex{"(GoSnaps.GoIO.map1Get " + x.s + " " + k.s + ")", tInt, x.p || k.p}
+		}
 		i := t.exprH(e.Index, tInt)
 		if i.t.k != "int" {
 			return t.fail("index of type %s", i.t.lean())
@@ -651,6 +778,9 @@ func (t *ftr) args(name string, call *ast.CallExpr, params []*ty) ([]string, boo
 		if t.err != nil {
 			return nil, false, false
 		}
+		if params[i].k == "text" && x.t.k == "err" && t.anyArg(name, i) {
+			x = ex{"(" + x.s + ").text", tText, x.p}
+		}
 		if !x.t.eq(params[i]) {
 			t.fail("%s: argument %d has type %s, expected %s", name, i+1, x.t.lean(), params[i].lean())
 			return nil, false, false
@@ -662,8 +792,24 @@ func (t *ftr) args(name string, call *ast.CallExpr, params []*ty) ([]string, boo
 }
 
 func (t *ftr) call(e *ast.CallExpr) ex {
-	if e.Ellipsis != token.NoPos {
-		return t.fail("call with ...")
+	if e.Ellipsis != token.NoPos && selName(e.Fun) != "append" {
+		// f(xs...) passes the slice itself: the translated callee takes the list
+		if _, ok := t.funcs[t.sp.pkg+"."+selName(e.Fun)]; !ok {
+			return t.fail("call with ...")
+		}
+	}
+	if selName(e.Fun) == "append" && len(e.Args) == 2 {
+		x, y := t.expr(e.Args[0]), t.expr(e.Args[1])
+		if t.err != nil {
+			return ex{"sorry", tBad, false}
+		}
+		if e.Ellipsis != token.NoPos && x.t.eq(y.t) && (x.t.k == "merrs" || x.t.k == "texts") {
+			return ex{"(" + x.s + " ++ " + y.s + ")", x.t, x.p || y.p}
+		}
+		if e.Ellipsis == token.NoPos && x.t.k == "texts" && y.t.k == "text" {
+			return ex{"(" + x.s + " ++ [" + y.s + "])", x.t, x.p || y.p}
+		}
+		return t.fail("unsupported append %s", t.src(e))
 	}
 	// a call with exactly these arguments declared opaque (made a parameter)
 	if p, ok := t.sp.externs[t.src(e)]; ok {
@@ -705,7 +851,7 @@ func (t *ftr) call(e *ast.CallExpr) ex {
 		case "len":
 			if len(e.Args) == 1 {
 				x := t.expr(e.Args[0])
-				if x.t.k != "text" && x.t.k != "texts" {
+				if x.t.k != "text" && x.t.k != "texts" && x.t.k != "merrs" && x.t.k != "matchers" {
 					return t.fail("len of %s", x.t.lean())
 				}
 				return ex{"(GoSnaps.GoSem.len " + x.s + ")", tInt, x.p}
@@ -742,6 +888,18 @@ func (t *ftr) call(e *ast.CallExpr) ex {
 		}
 	}
 	if p, ok := t.sp.extFns[name]; ok {
+		// a method of a local value (m.JSON(b)): the receiver is the first argument of the parameter
+		if rid, _, _, isM := recvCall(e); isM && t.lookup(rid.Name) != nil && len(p.t.params) == len(e.Args)+1 {
+			r := t.expr(rid)
+			if t.err != nil || !r.t.eq(p.t.params[0]) {
+				return t.fail("%s: receiver of type %s", name, r.t.lean())
+			}
+			a, pp, ok := t.args(name, e, p.t.params[1:])
+			if !ok {
+				return ex{"sorry", tBad, false}
+			}
+			return ex{"(" + p.name + " " + r.s + " " + strings.Join(a, " ") + ")", p.t.res, pp}
+		}
 		a, pp, ok := t.args(name, e, p.t.params)
 		if !ok {
 			return ex{"sorry", tBad, false}
@@ -872,11 +1030,18 @@ func (t *ftr) define(b *strings.Builder, ind, name string, x ex) {
 	if name == "_" {
 		return
 	}
-	t.defineAs(b, ind, name, leanIdent(name), x)
+	lean := leanIdent(name)
+	if t.lookup(name) != nil && t.lookupLocal(name) == nil {
+		// the definition shadows a variable of an enclosing scope: Lean does not allow shadowing a
+		// `let mut`, and a fresh name also rules out accidental capture
+		t.tmp++
+		lean = fmt.Sprintf("%s_%d", leanIdent(name), t.tmp)
+	}
+	t.defineAs(b, ind, name, lean, x)
 }
 
 func (t *ftr) defineAs(b *strings.Builder, ind, name, lean string, x ex) {
-	if t.muts[name] || x.t.k == "file" || x.t.k == "scanner" {
+	if t.muts[name] || x.t.k == "file" || x.t.k == "scanner" || t.builder[name] {
 		fmt.Fprintf(b, "%slet mut %s := %s\n", ind, lean, x.s)
 	} else {
 		fmt.Fprintf(b, "%slet %s := %s\n", ind, lean, x.s)
@@ -906,7 +1071,7 @@ func (t *ftr) assign(b *strings.Builder, ind string, s *ast.AssignStmt) {
 		if pre != nil {
 			x = *pre
 		} else {
-			x = t.expr(s.Rhs[0])
+			x = t.exprMulti(s.Rhs[0], len(s.Lhs))
 		}
 		if t.err != nil {
 			b.WriteString(ind + "sorry\n")
@@ -960,6 +1125,12 @@ func (t *ftr) assign(b *strings.Builder, ind string, s *ast.AssignStmt) {
 	if len(s.Lhs) != 1 || len(s.Rhs) != 1 {
 		t.stmtFail(b, ind, "unsupported multi-assignment %s", t.src(s))
 		return
+	}
+	// assignment to a map entry of the receiver
+	if ix, ok := s.Lhs[0].(*ast.IndexExpr); ok {
+		if t.mapAssign(b, ind, ix, s.Tok, s.Rhs[0]) {
+			return
+		}
 	}
 	// index assignment
 	if ix, ok := s.Lhs[0].(*ast.IndexExpr); ok {
@@ -1176,6 +1347,11 @@ func (t *ftr) block0(list []ast.Stmt, ind string, res *ty) string {
 		case *ast.AssignStmt:
 			t.assign(&b, ind, s)
 		case *ast.IncDecStmt:
+			if ix, ok := s.X.(*ast.IndexExpr); ok && s.Tok == token.INC {
+				if t.mapAssign(&b, ind, ix, token.INC, nil) {
+					continue
+				}
+			}
 			id, ok := s.X.(*ast.Ident)
 			if !ok || t.lookup(id.Name) == nil || t.lookup(id.Name).k != "int" {
 				t.stmtFail(&b, ind, "%s", t.src(s))
@@ -1212,6 +1388,9 @@ func (t *ftr) retPrefix() []string {
 	var pre []string
 	if t.sp.fx == "rw" {
 		pre = append(pre, "fs")
+	}
+	if t.sp.fx == "st" {
+		pre = append(pre, "st")
 	}
 	for _, n := range t.sp.inout {
 		pre = append(pre, t.ln(n))
@@ -1273,6 +1452,16 @@ func (t *ftr) ifStmt(s *ast.IfStmt, ind string, res *ty) string {
 		// if x := e; cond { … }: x is visible in the condition and both branches only.  It is renamed
 		// (x_k) so that it cannot capture a later use of an outer variable of the same name.
 		as, ok := s.Init.(*ast.AssignStmt)
+		if ok && as.Tok == token.ASSIGN && len(as.Rhs) == 1 {
+			// if x = e; cond { … }: a plain assignment to an existing variable, then the `if`
+			t.assign(&b, ind, as)
+			if t.err != nil {
+				return b.String()
+			}
+			s2 := *s
+			s2.Init = nil
+			return b.String() + t.ifStmt(&s2, ind, res)
+		}
 		if !ok || as.Tok != token.DEFINE || len(as.Rhs) != 1 {
 			t.stmtFail(&b, ind, "if with an init statement other than `x := e`")
 			return b.String()
@@ -1287,7 +1476,7 @@ func (t *ftr) ifStmt(s *ast.IfStmt, ind string, res *ty) string {
 			}
 			x = t.emitFx(&b, ind, fr)
 		} else {
-			x = t.expr(as.Rhs[0])
+			x = t.exprMulti(as.Rhs[0], len(as.Lhs))
 		}
 		if t.err != nil {
 			b.WriteString(ind + "sorry\n")
@@ -1401,10 +1590,11 @@ func (t *ftr) rangeStmt(s *ast.RangeStmt, ind string, res *ty) string {
 		b.WriteString(ind + "sorry\n")
 		return b.String()
 	}
-	if xs.t.k != "texts" {
+	if xs.t.k != "texts" && xs.t.k != "merrs" && xs.t.k != "matchers" {
 		t.stmtFail(&b, ind, "range over %s (only []string is supported; a string ranges over runes)", xs.t.lean())
 		return b.String()
 	}
+	elemT := map[string]*ty{"texts": tText, "merrs": tMErr, "matchers": tMatch}[xs.t.k]
 	whole, indexed := assignedIn(s.Body)
 	if whole["?"] || (k != "_" && whole[k]) {
 		t.stmtFail(&b, ind, "the loop body assigns the range index")
@@ -1429,23 +1619,37 @@ func (t *ftr) rangeStmt(s *ast.RangeStmt, ind string, res *ty) string {
 			}
 		}
 	}
+	fresh := func(n string) string {
+		if n != "_" && t.lookup(n) != nil {
+			t.tmp++
+			return fmt.Sprintf("%s_%d", leanIdent(n), t.tmp)
+		}
+		return leanIdent(n)
+	}
+	lk, lv := fresh(k), fresh(v)
 	switch {
 	case k == "_" && v == "_":
 		t.stmtFail(&b, ind, "range without variables")
 		return b.String()
 	case k == "_":
-		fmt.Fprintf(&b, "%sfor %s in %s do\n", ind, leanIdent(v), xs.s)
+		fmt.Fprintf(&b, "%sfor %s in %s do\n", ind, lv, xs.s)
 	case v == "_":
-		fmt.Fprintf(&b, "%sfor %s in GoSnaps.GoSem.intRange (0 : Int) (GoSnaps.GoSem.len %s) do\n", ind, leanIdent(k), xs.s)
+		fmt.Fprintf(&b, "%sfor %s in GoSnaps.GoSem.intRange (0 : Int) (GoSnaps.GoSem.len %s) do\n", ind, lk, xs.s)
 	default:
-		fmt.Fprintf(&b, "%sfor (%s, %s) in GoSnaps.GoSem.enum %s do\n", ind, leanIdent(k), leanIdent(v), xs.s)
+		fmt.Fprintf(&b, "%sfor (%s, %s) in GoSnaps.GoSem.enum %s do\n", ind, lk, lv, xs.s)
 	}
 	t.push()
 	if k != "_" {
 		t.bind(k, tInt)
+		if lk != leanIdent(k) {
+			t.ren[len(t.ren)-1][k] = lk
+		}
 	}
 	if v != "_" {
-		t.bind(v, tText)
+		t.bind(v, elemT)
+		if lv != leanIdent(v) {
+			t.ren[len(t.ren)-1][v] = lv
+		}
 	}
 	t.loops = append(t.loops, loopCtx{sliceName, k})
 	b.WriteString(t.block(s.Body.List, ind+"  ", res))
@@ -1511,15 +1715,17 @@ func sigText(t *ftr, fd *ast.FuncDecl) string {
 func translateFunc(pkg *pkgInfo, sp *funcSpec, consts map[string]bool, funcs map[string]*doneFn) *doneFn {
 	fd := pkg.fn(sp.name)
 	t := &ftr{pkg: pkg, consts: consts, muts: map[string]bool{}, sp: sp, funcs: funcs, builder: map[string]bool{}}
-	if fd.Recv != nil || fd.Type.TypeParams != nil {
-		ffail("funcs: %s: methods and generic functions are not supported", sp.name)
+	if fd.Type.TypeParams != nil || (fd.Recv != nil) != (sp.recv != "") {
+		ffail("funcs: %s: receiver / type parameters do not match the specification", sp.name)
 	}
 	if got := sigText(t, fd); got != sp.sig {
 		ffail("funcs: %s signature changed: %s (expected %s)", sp.name, got, sp.sig)
 	}
 	t.push()
 	var binders []string
-	if sp.fx != "" {
+	if sp.fx == "st" {
+		binders = append(binders, "(io : GoSnaps.GoIO.IOFail)", "(st : GoSnaps.GoIO.St)")
+	} else if sp.fx != "" {
 		binders = append(binders, "(io : GoSnaps.GoIO.IOFail)", "(fs : GoSnaps.FS)")
 	}
 	for _, p := range sp.extra {
@@ -1531,13 +1737,37 @@ func translateFunc(pkg *pkgInfo, sp *funcSpec, consts map[string]bool, funcs map
 	}
 	var pts []*ty
 	var pns []string
+	anyP := map[int]bool{}
 	pnames := map[string]bool{}
+	if sp.recv != "" {
+		// the receiver is the first, in-out parameter
+		parts := strings.SplitN(sp.recv, ":", 2)
+		rt := map[string]*ty{"registry": tReg, "sregistry": tSReg}[parts[1]]
+		if rt == nil || len(fd.Recv.List) != 1 || len(fd.Recv.List[0].Names) != 1 || fd.Recv.List[0].Names[0].Name != parts[0] {
+			ffail("funcs: %s: receiver does not match %s", sp.name, sp.recv)
+		}
+		if _, isPtr := fd.Recv.List[0].Type.(*ast.StarExpr); !isPtr {
+			ffail("funcs: %s: value receiver (the method cannot change the registry)", sp.name)
+		}
+		t.bind(parts[0], rt)
+		pnames[parts[0]] = true
+		pts = append(pts, rt)
+		pns = append(pns, parts[0])
+		binders = append(binders, "("+leanIdent(parts[0])+" : "+rt.lean()+")")
+		if !isInout[parts[0]] {
+			sp.inout = append([]string{parts[0]}, sp.inout...)
+			isInout[parts[0]] = true
+		}
+	}
 	for _, f := range fd.Type.Params.List {
 		pt := goType(f.Type)
 		if pt == nil {
 			ffail("funcs: %s: unsupported parameter type %s", sp.name, t.src(f.Type))
 		}
 		for _, n := range f.Names {
+			if s := t.src(f.Type); s == "any" || s == "interface{}" {
+				anyP[len(pts)] = true
+			}
 			if (pt.k == "scanner" || pt.k == "file") && !isInout[n.Name] {
 				ffail("funcs: %s: the pointer parameter %s must be declared in-out", sp.name, n.Name)
 			}
@@ -1567,6 +1797,9 @@ func translateFunc(pkg *pkgInfo, sp *funcSpec, consts map[string]bool, funcs map
 	var all []*ty
 	if sp.fx == "rw" {
 		all = append(all, &ty{k: "fs"})
+	}
+	if sp.fx == "st" {
+		all = append(all, tSt)
 	}
 	for _, n := range sp.inout {
 		all = append(all, t.lookup(n))
@@ -1606,9 +1839,14 @@ func translateFunc(pkg *pkgInfo, sp *funcSpec, consts map[string]bool, funcs map
 		}
 		return true
 	})
-	for n := range t.muts {
-		if pnames[n] && !isInout[n] {
-			ffail("funcs: %s assigns its parameter %s", sp.name, n)
+	var assignedParams []string
+	for _, n := range pns {
+		if t.muts[n] && !isInout[n] {
+			// Go parameters are local variables: an assigned one becomes `let mut p := p`
+			if k := t.lookup(n).k; k == "file" || k == "scanner" || k == "registry" || k == "sregistry" {
+				ffail("funcs: %s assigns its pointer parameter %s", sp.name, n)
+			}
+			assignedParams = append(assignedParams, n)
 		}
 	}
 	t.checkAliasing(fd, pnames)
@@ -1624,6 +1862,12 @@ func translateFunc(pkg *pkgInfo, sp *funcSpec, consts map[string]bool, funcs map
 	var pre strings.Builder
 	if sp.fx == "rw" {
 		pre.WriteString("  let mut fs := fs\n")
+	}
+	if sp.fx == "st" {
+		pre.WriteString("  let mut st := st\n")
+	}
+	for _, nm := range assignedParams {
+		fmt.Fprintf(&pre, "  let mut %s := %s\n", leanIdent(nm), leanIdent(nm))
 	}
 	for _, nm := range sp.inout {
 		fmt.Fprintf(&pre, "  let mut %s := %s\n", leanIdent(nm), leanIdent(nm))
@@ -1643,13 +1887,15 @@ func translateFunc(pkg *pkgInfo, sp *funcSpec, consts map[string]bool, funcs map
 		if strings.Contains(rl, " ") && !strings.HasPrefix(rl, "(") {
 			rl = "(" + rl + ")"
 		}
-		fmt.Fprintf(&b, "def %s %s : Option %s := do\n", sp.name, strings.Join(binders, " "), rl)
+		fmt.Fprintf(&b, "def %s %s : Option %s := do\n", leanDefName(sp.name), strings.Join(binders, " "), rl)
 	} else {
-		fmt.Fprintf(&b, "def %s %s : %s := Id.run do\n", sp.name, strings.Join(binders, " "), res.lean())
+		fmt.Fprintf(&b, "def %s %s : %s := Id.run do\n", leanDefName(sp.name), strings.Join(binders, " "), res.lean())
 	}
 	b.WriteString(body)
-	return &doneFn{spec: sp, params: pts, pnames: pns, res: res, rets: rts, partial: t.partial, text: b.String()}
+	return &doneFn{spec: sp, params: pts, pnames: pns, anyP: anyP, res: res, rets: rts, partial: t.partial, text: b.String()}
 }
+
+func leanDefName(n string) string { return strings.ReplaceAll(n, ".", "_") }
 
 // funcsErr: a function of the list could not be transliterated.  The failure is LOCAL: the function
 // is left out of Funcs.lean (so exactly the `*_tied` theorems about it stop compiling) and the reason
